@@ -118,6 +118,8 @@ def run(ctx):
     rep.floor('PROV-CTX final sinks', n1, 2)
     rep.floor('R-SIGN instances', n2, 3)
     n3 = sign_carrying_outcomes(rep, F, fns)
+    ndf = roots.default_form(rep, F, r'BigDecimal::inverse->')
+    rep.floor('default-context form', ndf, 1)
     nkg = roots.kernel_gates(rep, F, r'inverse')
     rep.floor('kernel gateways', nkg, 1)
     n4 = operand_exact(rep, F)
